@@ -104,8 +104,8 @@ def runAttrOps (c : Ctx) (init : Store) (ops : Array Json) (other : Option (Ctx 
     | "view_value" => out := out.push (resToJson (viewValue c s (handles[(← nat opj "view")]?.getD 1000000)))
     | "view_name" =>
       -- `(attribute.namespace, attribute.local_name)`
-      match getView s (handles[(← nat opj "view")]?.getD 1000000) with
-      | some v => out := out.push (Json.arr #[Json.str v.qname.1, Json.str v.qname.2])
+      match viewName c s (handles[(← nat opj "view")]?.getD 1000000) with
+      | some q => out := out.push (Json.arr #[Json.str q.1, Json.str q.2])
       | none => out := out.push (Json.str "KeyError")
     | "view_set" => s := viewSetValue c s (handles[(← nat opj "view")]?.getD 1000000) (← chars opj "value"); out := out.push (Json.str "ok")
     | "view_rename" =>
